@@ -2,6 +2,9 @@ import Enc.Model.Json.Token
 import Enc.Spec.Json.Tokens
 import Enc.Lemmas.TokSpec
 import Enc.Lemmas.TokConcat
+import Enc.Model.Json.TokenAcc
+import Enc.Spec.Json.TokenVal
+import Enc.Lemmas.TokAcc
 /-!
 # C17 — json.Tokenizer enumerates exactly the tokens of the document
 Property theorems only.
@@ -42,5 +45,95 @@ theorem tokens_terminate (b : Bytes) (k : Nat) : run (b.length + 2 + k) (newSt b
 
 /-- non-vacuity: the hypothesis of the main theorem is met by a document with an empty object inside an array -/
 example : (Spec.Json.tokensOf [0x5b, 0x7b, 0x7d, 0x2c, 0x22, 0x61, 0x22, 0x5d]).isSome = true := by decide +kernel
+
+/-! ## "… and Kind/String/Int/Uint/Float/Bool report the token's class and decoded value"
+
+Model: `Model/Json/TokenAcc.lean` (the accessors as written; none of them can fail — parse errors are dropped and the zero
+value returned; only `RawValue.AppendUnquote/Unquote` panic). Specification: `Spec/Json/TokenVal.lean` (class and value
+of a token from its text alone; the string value is encoding/json's `unquote`). Proofs: `Lemmas/TokAcc*.lean`.
+The per-token theorems hold for every token the tokenizer emits on EVERY input (valid or not); `accessors_eq_spec`
+states them for the grammar-directed token stream of a valid document. `fl` is the tokenizer's flag word
+(`internalParseFlags b`). Trusted: `strconv.ParseFloat` (shared with encoding/json) — the model exposes its argument. -/
+
+open Enc.Spec.Json (kindOf classOfKind int64Of uint64Of stringOf isStrKind rawFlagsOf)
+
+/-- `Kind()` is the grammatical class of the token with the sub-kinds as json.go defines them (`Spec.Json.kindOf`):
+`{` Object, `[` Array, other delimiters Undefined; null / false / true; numbers: Uint = no sign, no fraction, no exponent,
+Int = minus sign, no fraction, no exponent, Float = a fraction or an exponent; strings: Unescaped = the body is printable
+ASCII without backslash, String otherwise. `Kind().Class()` is the highest bit of that code. -/
+theorem kind_is_class (b : Bytes) (t : Tok) (ht : t ∈ (tokens b).1) :
+    tokKind t = kindOf t.delim t.value ∧ kindClass (tokKind t) = classOfKind (kindOf t.delim t.value) :=
+  Lemmas.TokAcc.kind_is_class b t ht
+
+/-- `Bool()` is true exactly on the token `true` (false on `false` AND on every token of another kind) -/
+theorem bool_value (b : Bytes) (t : Tok) (ht : t ∈ (tokens b).1) : tokBool t = (kindOf t.delim t.value == 3) :=
+  Lemmas.TokAcc.bool_value b t ht
+
+/-- `String()` of a string token — a value OR a key — is encoding/json's unquoted string (`Spec.Json.unquote`: escapes,
+surrogate pairs, U+FFFD for lone surrogates and invalid UTF-8), through the fast path (kind Unescaped) and the slow one
+alike; on a token of any other kind it is empty. -/
+theorem string_value (b : Bytes) (t : Tok) (ht : t ∈ (tokens b).1) :
+    tokString (internalParseFlags b) t =
+      if isStrKind (kindOf t.delim t.value) then Spec.Json.unquote t.value else [] :=
+  (Lemmas.TokAcc.tokens_acc b t ht).str
+
+/-- `Int()`: the integer the literal denotes when the token is an integer (kind Uint or Int) within int64; **0 otherwise**
+— for a Float token, for a token that is not a number, and for an integer outside [-2^63, 2^63) (no error, no
+saturation, no wrap-around: the overflow error of parseInt is dropped). -/
+theorem int_value (b : Bytes) (t : Tok) (ht : t ∈ (tokens b).1) : (tokInt t).toInt = int64Of t.delim t.value :=
+  (Lemmas.TokAcc.tokens_acc b t ht).int
+
+/-- `Uint()`: the literal's value for an unsigned integer token (kind Uint) below 2^64; **0 otherwise** (any token with a
+minus sign, `-0` included; Float tokens; non-numbers; 2^64 and above). -/
+theorem uint_value (b : Bytes) (t : Tok) (ht : t ∈ (tokens b).1) : (tokUint t).toNat = uint64Of t.delim t.value :=
+  (Lemmas.TokAcc.tokens_acc b t ht).uint
+
+/-- `Float()` hands strconv.ParseFloat exactly the bytes of the token and bit size 64 — for every kind of number token:
+`-0` goes as `-0`, a 20-digit integer as its 20 digits (no detour through `Int()`). -/
+theorem float_literal (t : Tok) : tokFloatArg t = (t.value, 64) := rfl
+
+/-- `RawValue`: the five class tests look at the first byte only and agree with the kind; `AppendUnquote(p)` returns
+`p ++` the unquoted string on a string token and panics on every other token. -/
+theorem raw_value (b : Bytes) (t : Tok) (ht : t ∈ (tokens b).1) :
+    [rawString t.value, rawNull t.value, rawTrue t.value, rawFalse t.value, rawNumber t.value]
+      = rawFlagsOf (kindOf t.delim t.value) ∧
+    ∀ p, rawAppendUnquote t.value p =
+      if isStrKind (kindOf t.delim t.value) then .ok (p ++ stringOf t.delim t.value) else .panic "syntax" :=
+  ⟨(Lemmas.TokAcc.tokens_acc b t ht).raw, (Lemmas.TokAcc.tokens_acc b t ht).unq⟩
+
+/-- after a successful `parseString` the unquoting loop of `parseStringUnquote` cannot fail: the partial buffer the Go
+code returns together with the loop's error is never observed by `String()`, and its `s[0]` cannot go out of range -/
+theorem unquote_total (fl : PFlags) (b : Bytes) (k : Kind) (rest : Bytes) (hs : Lemmas.JsonString.QSound fl b)
+    (h : parseString fl b = .ok k rest) : (parseStringUnquote fl b).isSome = true :=
+  Lemmas.TokAcc.unquote_total fl b k rest hs h
+
+/-- **valid documents**: the stream of (delimiter, text, everything the accessors report) the tokenizer yields is the one
+the specification computes from the grammar-directed token list. -/
+theorem accessors_eq_spec (b : Bytes) (ts : List Spec.Json.STok) (h : Spec.Json.tokensOf b = some ts) :
+    (tokens b).1.map (fun t => (t.delim, t.value, Lemmas.TokAcc.accView (accOf (internalParseFlags b) t))) =
+      ts.map (fun st => (st.delim, st.value, Lemmas.TokAcc.specView st.delim st.value)) :=
+  Lemmas.TokAcc.acc_eq_spec b ts h
+
+/-- the shapes of number tokens behind `kind_is_class`: what `parseNumber` consumes is sign? digits (no leading zero),
+for kind Float followed by `.`/`e`/`E` -/
+theorem number_token_shape (b : Bytes) (k : Kind) (rest : Bytes) (h : parseNumber b = .ok k rest) :
+    ∃ v, b = v ++ rest ∧ Lemmas.TokAcc.NumLit k v :=
+  Lemmas.TokAcc.parseNumber_lit b k rest h
+
+/-- non-vacuity and the seeded cases: `[-0,"\u00e9",18446744073709551616,true]` — the tokens are emitted … -/
+example : ((tokens [0x5b, 0x2d, 0x30, 0x2c, 0x22, 0x5c, 0x75, 0x30, 0x30, 0x65, 0x39, 0x22, 0x2c, 0x31, 0x38, 0x5d]).1.map (·.value)) =
+    [[0x5b], [0x2d, 0x30], [0x2c], [0x22, 0x5c, 0x75, 0x30, 0x30, 0x65, 0x39, 0x22], [0x2c], [0x31, 0x38], [0x5d]] := by decide +kernel
+-- … `-0` is an Int token whose Int() is 0, whose Uint() is 0 and whose Float() argument is `-0`
+example : kindOf 0 [0x2d, 0x30] = 6 ∧ int64Of 0 [0x2d, 0x30] = 0 ∧ uint64Of 0 [0x2d, 0x30] = 0 := by decide
+-- 9223372036854775808 (2^63): a Uint token; Int() gives 0, Uint() the value
+example : int64Of 0 [0x39,0x32,0x32,0x33,0x33,0x37,0x32,0x30,0x33,0x36,0x38,0x35,0x34,0x37,0x37,0x35,0x38,0x30,0x38] = 0 ∧
+    uint64Of 0 [0x39,0x32,0x32,0x33,0x33,0x37,0x32,0x30,0x33,0x36,0x38,0x35,0x34,0x37,0x37,0x35,0x38,0x30,0x38] = 9223372036854775808 := by decide
+-- 18446744073709551616 (2^64): both give 0
+example : int64Of 0 [0x31,0x38,0x34,0x34,0x36,0x37,0x34,0x34,0x30,0x37,0x33,0x37,0x30,0x39,0x35,0x35,0x31,0x36,0x31,0x36] = 0 ∧
+    uint64Of 0 [0x31,0x38,0x34,0x34,0x36,0x37,0x34,0x34,0x30,0x37,0x33,0x37,0x30,0x39,0x35,0x35,0x31,0x36,0x31,0x36] = 0 := by decide
+-- the string "\u00e9" has kind String (8) and unquotes to é; "abc" has kind Unescaped (9)
+example : kindOf 0 [0x22, 0x5c, 0x75, 0x30, 0x30, 0x65, 0x39, 0x22] = 8 ∧
+    Spec.Json.unquote [0x22, 0x5c, 0x75, 0x30, 0x30, 0x65, 0x39, 0x22] = [0xc3, 0xa9] ∧
+    kindOf 0 [0x22, 0x61, 0x62, 0x63, 0x22] = 9 := by decide
 
 end Enc.Props.C17
